@@ -7,6 +7,8 @@
 (*                 admissible word sizes), and what the real load returned.   *)
 (*   kind "size":  a save whose row ids total >= 2^30 (not materialised):     *)
 (*                 the 16 header bytes against exact PayloadLen arithmetic.   *)
+(*   kind "many":  a save + load of tens of thousands of entries: counts and  *)
+(*                 sampled entries.                                           *)
 (* Every failing clause is printed; "ok" when none fails.                     *)
 EXTENDS Indx, Json, IOUtils
 
@@ -54,8 +56,18 @@ SizeClauses(e) ==
        \* a size field smaller than what was written lets the loader accept the file torn anywhere after 16 + size bytes
        \cup If(BLess(BAdd(<<16>>, Word(e.header, 8, 8)), e.filelen), "C12:size-field-lets-a-prefix-pass")
 
+\* an index with tens of thousands of entries: counts and a sample of entries (the harness adds the all-entries verdict)
+ManyClauses(e) ==
+  IF e.saveexc THEN {"C10:save-raised"}
+  ELSE IF e.loadexc THEN {"C10:load-raised"}
+  ELSE If(e.nloaded # e.n, "C10:entry-count")
+       \cup If(e.lcommon # e.common, "C10:common")
+       \cup If(\E q \in DOMAIN e.sample : ~e.sample[q].found \/ e.sample[q].lr # e.sample[q].r, "C10:entries")
+       \cup If(~e.allsame, "C10:entries-differ-somewhere")
+
 Clauses(e) ==
-  CASE e.kind = "file" -> WriterClauses(e) \cup (IF e.saveexc THEN {} ELSE LoadClauses(e, "C10") \cup TornClauses(e))
+  CASE e.kind = "many" -> ManyClauses(e)
+    [] e.kind = "file" -> WriterClauses(e) \cup (IF e.saveexc THEN {} ELSE LoadClauses(e, "C10") \cup TornClauses(e))
     [] e.kind = "read" -> LoadClauses(e, "C11")
                           \cup If(~SameData(Decode(e.bytes), X(e)), "C11:spec-decode-of-spec-bytes")
     [] OTHER -> SizeClauses(e)
